@@ -1,11 +1,12 @@
 //! Conformance harness for property C11 (signal dispositions and traps),
 //! see /verif/DESIGN.md section 6 "C11".
+mod shellrun;
 mod trapset;
 
 fn main() {
     let args: Vec<String> = std::env::args().collect();
     if args.len() < 2 {
-        eprintln!("usage: yv-c11 <replay|random|redo> ...");
+        eprintln!("usage: yv-c11 <replay|random|redo|shell> ...");
         std::process::exit(2);
     }
     let rest = &args[2..];
@@ -13,6 +14,8 @@ fn main() {
         "replay" => trapset::replay(rest),
         "random" => trapset::random(rest),
         "redo" => trapset::redo(rest),
+        "shell" => shellrun::shell(rest),
+        "shell1" => shellrun::shell1(rest),
         other => {
             eprintln!("unknown subcommand {other}");
             2
